@@ -4,8 +4,12 @@
     one of the two "value too large for the address space" outcomes; any other guard failure (assert!,
     bounds precondition of an unsafe block, double free, free with a wrong size) is excluded.
     [Own bl m]: the live blocks of the ghost heap m are exactly bl, each once.
+    [TargInv M a]: an operand handed to an arithmetic routine comes from a value satisfying the invariant (an
+    owned buffer with len <= capacity and >= 3 words / borrowed words of a value with >= 3 words / a double word).
+    [RQ M F Q]: Q holds for every result that satisfies the invariant and owns exactly its block beside the frame F.
+    [OQ M F Q]: the same for a routine that may instead raise a documented panic after releasing what it owned.
     All statements hold for every word size w > 0 and every MAX_CAPACITY M >= 8. *)
-From Dashu Require Import Base.Prelude Base.Words Int.StorageModel Int.StorageProofs Int.StorageHistory.
+From Dashu Require Import Base.Prelude Base.Words Int.StorageModel Int.StorageProofs Int.StorageArith Int.StorageHistory.
 Open Scope Z_scope.
 
 Theorem C17_default_capacity_compact : forall M, 8 <= M -> forall n, 0 <= n <= M ->
@@ -62,22 +66,125 @@ Theorem C17_init : forall M n, StateInv M (repeat zero n) mem0.
 Proof. exact StateInv_init. Qed.
 Print Assumptions C17_init.
 
-(** every storage step (construction from words / double words / ones, clone, clone_from of a value or a
-    static, drop, move, swap, neg, abs) preserves the invariant of the whole pool and the heap ledger *)
-Theorem C17_step_storage_ops_partial : forall w M, 0 < w -> 8 <= M ->
+(** ---- the buffer handling of the arithmetic operations: every capacity computation of the code suffices
+    (no guard fails), the result satisfies the invariant, by-value operands that are not reused are freed
+    exactly once, nothing leaks.  Operand forms: TSmall / TLarge (by value), TRefSmall / TRefLarge (by reference
+    or static) - all 16 combinations. *)
+
+(** UBig + UBig: add_dword (spill to 3 words), add_large_dword, add_large (ensure_capacity + push_slice of the
+    longer tail, carry propagation, push_resizing of the final carry) *)
+Theorem C17_add : forall w M, 8 <= M ->
+  forall (a b : targ) (F : list (Z * Z)) (m : mem) (Q : repr -> mem -> Prop),
+  Own (tblks a ++ tblks b ++ F) m -> TargInv M a -> TargInv M b -> RQ M F Q -> safe (add_mag w M a b) m Q.
+Proof. exact wp_add_mag. Qed.
+Print Assumptions C17_add.
+
+(** UBig - UBig: the documented NegativeUBig panic is raised only after every owned buffer was released *)
+Theorem C17_sub : forall w M, 8 <= M ->
+  forall (a b : targ) (F : list (Z * Z)) (m : mem) (Q : outcome -> mem -> Prop),
+  Own (tblks a ++ tblks b ++ F) m -> TargInv M a -> TargInv M b -> OQ M F Q -> safe (sub_mag w M a b) m Q.
+Proof. exact wp_sub_mag. Qed.
+Print Assumptions C17_sub.
+
+(** the signed subtraction behind IBig + / - (sub_large with sign, sub_large_ref_val growing the right operand) *)
+Theorem C17_sub_signed : forall w M, 8 <= M ->
+  forall (a b : targ) (F : list (Z * Z)) (m : mem) (Q : outcome -> mem -> Prop),
+  Own (tblks a ++ tblks b ++ F) m -> TargInv M a -> TargInv M b -> OQ M F Q -> safe (sub_signed w M a b) m Q.
+Proof. exact wp_sub_signed. Qed.
+Print Assumptions C17_sub_signed.
+
+(** UBig * UBig: mul_dword (spill to 4 words), mul_large_dword (push_resizing of a word carry / ensure_capacity
+    len + 2 for a double-word carry), mul_large (result buffer of len lhs + len rhs words) *)
+Theorem C17_mul : forall w M, 8 <= M ->
+  forall (a b : targ) (F : list (Z * Z)) (m : mem) (Q : repr -> mem -> Prop),
+  Own (tblks a ++ tblks b ++ F) m -> TargInv M a -> TargInv M b -> RQ M F Q -> safe (mul_mag w M a b) m Q.
+Proof. exact wp_mul_mag. Qed.
+Print Assumptions C17_mul.
+
+(** & of magnitudes: lowest_dword of a large operand (len >= 2), bitand_large (truncate to the shorter length) *)
+Theorem C17_bitand : forall w M, 8 <= M ->
+  forall (a b : targ) (F : list (Z * Z)) (m : mem) (Q : repr -> mem -> Prop),
+  Own (tblks a ++ tblks b ++ F) m -> TargInv M a -> TargInv M b -> RQ M F Q -> safe (and_mag w M a b) m Q.
+Proof. exact wp_and_mag. Qed.
+Print Assumptions C17_bitand.
+
+(** | and ^ of magnitudes (f = Z.lor / Z.lxor; the theorem holds for any f): bitor_large_dword (lowest_dword_mut),
+    bitor_large (ensure_capacity + push_slice of the longer tail) *)
+Theorem C17_bitor_bitxor : forall w M, 8 <= M ->
+  forall (f : Z -> Z -> Z) (a b : targ) (F : list (Z * Z)) (m : mem) (Q : repr -> mem -> Prop),
+  Own (tblks a ++ tblks b ++ F) m -> TargInv M a -> TargInv M b -> RQ M F Q -> safe (orx_mag w M f a b) m Q.
+Proof. exact wp_orx_mag. Qed.
+Print Assumptions C17_bitor_bitxor.
+
+(** / : div_large_dword, div_large (div_rem_in_lhs pushes the top quotient word with push_resizing, erase_front of
+    the remainder words, the divisor buffer is freed); DivideBy0 only after the owned buffer was released *)
+Theorem C17_div : forall w M, 8 <= M ->
+  forall (a b : targ) (F : list (Z * Z)) (m : mem) (Q : outcome -> mem -> Prop),
+  Own (tblks a ++ tblks b ++ F) m -> TargInv M a -> TargInv M b -> OQ M F Q -> safe (div_mag w M a b) m Q.
+Proof. exact wp_div_mag. Qed.
+Print Assumptions C17_div.
+
+(** % : rem_large (the remainder is copied into the divisor's buffer, lhs[..n] in range, the dividend buffer is
+    freed), the short-dividend cases (from_buffer of the dividend / Buffer::clone_from_slice into the divisor) *)
+Theorem C17_rem : forall w M, 8 <= M ->
+  forall (a b : targ) (F : list (Z * Z)) (m : mem) (Q : outcome -> mem -> Prop),
+  Own (tblks a ++ tblks b ++ F) m -> TargInv M a -> TargInv M b -> OQ M F Q -> safe (rem_mag w M a b) m Q.
+Proof. exact wp_rem_mag. Qed.
+Print Assumptions C17_rem.
+
+(** all thirteen binary operators of the machine: UBig + - * & | ^ / %, IBig + - * / % through the sign tables *)
+Theorem C17_binary_operators : forall w M, 8 <= M ->
+  forall (f : binop) (s0 : sign) (a : targ) (s1 : sign) (b : targ) (F : list (Z * Z)) (m : mem) (Q : outcome -> mem -> Prop),
+  Own (tblks a ++ tblks b ++ F) m -> TargInv M a -> TargInv M b -> OQ M F Q -> safe (run_bin w M f s0 a s1 b) m Q.
+Proof. exact wp_run_bin. Qed.
+Print Assumptions C17_binary_operators.
+
+(** << : shl_dword (one / double word spilled), shl_large (in-place test capacity >= len + shift_words + 1,
+    push + push_zeros_front), shl_large_ref *)
+Theorem C17_shl : forall w M, 0 < w -> 8 <= M ->
+  forall (a : targ) (n : Z) (F : list (Z * Z)) (m : mem) (Q : repr -> mem -> Prop),
+  Own (tblks a ++ F) m -> TargInv M a -> 0 <= n -> RQ M F Q -> safe (shl_mag w M a n) m Q.
+Proof. exact wp_shl_mag. Qed.
+Print Assumptions C17_shl.
+
+Theorem C17_shr : forall w M, 0 < w -> 8 <= M ->
+  forall (a : targ) (n : Z) (F : list (Z * Z)) (m : mem) (Q : repr -> mem -> Prop),
+  Own (tblks a ++ F) m -> TargInv M a -> 0 <= n -> RQ M F Q -> safe (shr_mag w M a n) m Q.
+Proof. exact wp_shr_mag. Qed.
+Print Assumptions C17_shr.
+
+(** set_bit: with_bit_dword_spilled (idx + 1 words, idx - 2 does not underflow), with_bit_large (ensure_capacity idx + 1) *)
+Theorem C17_set_bit : forall w M, 0 < w -> 8 <= M ->
+  forall (a : targ) (n : Z) (F : list (Z * Z)) (m : mem) (Q : repr -> mem -> Prop),
+  Own (tblks a ++ F) m -> TargInv M a -> is_ref a = false -> 0 <= n -> RQ M F Q -> safe (set_bit w M a n) m Q.
+Proof. exact wp_set_bit. Qed.
+Print Assumptions C17_set_bit.
+
+Theorem C17_clear_bit : forall w M, 8 <= M ->
+  forall (a : targ) (n : Z) (F : list (Z * Z)) (m : mem) (Q : repr -> mem -> Prop),
+  Own (tblks a ++ F) m -> TargInv M a -> is_ref a = false -> RQ M F Q -> safe (clear_bit w M a n) m Q.
+Proof. exact wp_clear_bit. Qed.
+Print Assumptions C17_clear_bit.
+
+(** EVERY step of the machine - construction from words / double words / ones, clone, clone_from of a value or a
+    static, drop, move, swap, neg, abs, the thirteen binary operators (+ - * & | ^ / % and the signed + - * / %) in every call form (operands by value, by
+    reference, static; a by-value operand is moved out of its slot), shl, shr, set_bit, clear_bit, and the
+    oracle's re-synchronisation device - preserves the invariant of the whole pool and the heap ledger.
+    [op_ok] admits every constructor of [op]: slots exist, statics are normalized, bit counts are >= 0.
+    (full version of the former C17_step_storage_ops_partial) *)
+Theorem C17_step_storage_ops : forall w M, 0 < w -> 8 <= M ->
   forall (o : op) (pool : list repr) (m : mem),
-  op_ok (length pool) o -> StateInv M pool m ->
+  op_ok w M (length pool) o -> StateInv M pool m ->
   safe (step w M o pool) m (fun pr m' => StateInv M (fst pr) m' /\ length (fst pr) = length pool).
 Proof. exact step_safe. Qed.
-Print Assumptions C17_step_storage_ops_partial.
+Print Assumptions C17_step_storage_ops.
 
-(** all finite histories of storage steps from the initial pool: invariant at the end, and the final drop
-    of the pool frees every block exactly once (empty ghost heap).  PARTIAL: the arithmetic steps of the
-    machine (OBin, OShl, OShr, OSetBit, OClrBit) are not covered by op_ok; their exit from_buffer is
-    covered by C17_from_buffer_establishes_invariant, their guards are compared on every run only. *)
-Theorem C17_histories_storage_ops_partial : forall w M, 0 < w -> 8 <= M ->
-  forall (n : nat) (ops : list op), Forall (op_ok n) ops ->
+(** all finite histories of steps from the initial pool: invariant at the end, and the final drop of the pool
+    frees every block exactly once (empty ghost heap).  (full version of the former
+    C17_histories_storage_ops_partial: the arithmetic steps are covered) *)
+Theorem C17_histories_storage_ops : forall w M, 0 < w -> 8 <= M ->
+  forall (n : nat) (ops : list op), Forall (op_ok w M n) ops ->
   safe (run w M ops (repeat zero n)) mem0
        (fun pool m => StateInv M pool m /\ safe (drop_all pool) m (fun _ m' => forall p, blk m' p = None)).
 Proof. exact history_safe. Qed.
-Print Assumptions C17_histories_storage_ops_partial.
+Print Assumptions C17_histories_storage_ops.
